@@ -37,6 +37,34 @@ func awaitedFlagLoop(st ast.Stmt) string {
 	return src(as.Lhs[0])
 }
 
+// awaitedReturnLoop recognises `for g := range <set> { if sub.groupNeeds[g] > 0 { …; return … } }` and returns the `if` with its
+// condition replaced by the fact `awaited__` (nil if st is not such a loop).
+func awaitedReturnLoop(st ast.Stmt) *ast.IfStmt {
+	rs, ok := st.(*ast.RangeStmt)
+	if !ok || rs.Key == nil || len(rs.Body.List) != 1 {
+		return nil
+	}
+	is, ok := rs.Body.List[0].(*ast.IfStmt)
+	if !ok || is.Else != nil || is.Init != nil || len(is.Body.List) == 0 {
+		return nil
+	}
+	if strings.ReplaceAll(src(is.Cond), " ", "") != "sub.groupNeeds["+src(rs.Key)+"]>0" {
+		return nil
+	}
+	if _, ok := is.Body.List[len(is.Body.List)-1].(*ast.ReturnStmt); !ok {
+		return nil
+	}
+	// the body must not mention the loop variable (the decision is the same whichever group is found)
+	for _, b := range is.Body.List {
+		if strings.Contains(" "+src(b)+" ", " "+src(rs.Key)+" ") || strings.Contains(src(b), "["+src(rs.Key)+"]") {
+			return nil
+		}
+	}
+	n := *is
+	n.Cond = ast.NewIdent("awaited__")
+	return &n
+}
+
 // filteredBody translates fn's statements after removing (a) `flag := false` + awaited-flag loops (flag becomes the input
 // `awaited`), (b) statements for which drop says true.
 func filteredBody(rel, fn, leanName, params, resultTy, prelude, tail string, sp Spec, pick func(*ast.FuncDecl) []ast.Stmt) func() string {
@@ -57,6 +85,10 @@ func filteredBody(rel, fn, leanName, params, resultTy, prelude, tail string, sp 
 			if awaitedFlagLoop(st) != "" {
 				continue
 			}
+			if is := awaitedReturnLoop(st); is != nil {
+				keep = append(keep, is)
+				continue
+			}
 			if as, ok := st.(*ast.AssignStmt); ok && len(as.Lhs) == 1 && len(as.Rhs) == 1 && src(as.Rhs[0]) == "false" {
 				isFlag := false
 				for _, f := range flags {
@@ -73,6 +105,7 @@ func filteredBody(rel, fn, leanName, params, resultTy, prelude, tail string, sp 
 		if sp.Repl == nil {
 			sp.Repl = map[string]string{}
 		}
+		sp.Repl["awaited__"] = "awaited"
 		for _, f := range flags {
 			sp.Repl[f] = "awaited"
 			sp.Repl["!"+f] = "(!awaited)"
@@ -84,21 +117,62 @@ func filteredBody(rel, fn, leanName, params, resultTy, prelude, tail string, sp 
 	}
 }
 
-// the base-group block of setResult: the statement `if sub.logToGroups[logURL][ctpolicy.BaseName] { … }` (base membership
-// possibly through a hoisted alias), with the summation loop over the other groups' needs replaced by the input `other`.
+// the base-group block of setResult, wherever it lives: an `if <groups of the log>[ctpolicy.BaseName] { … }` statement, or a
+// method of safeSubmissionState that starts with `if !<groups of the log>[ctpolicy.BaseName] { return }`. The sum over the other
+// groups' positive needs — an inline loop or a helper method consisting of that loop — is the input `other`.
+func isOtherSumLoop(st ast.Stmt) (acc string, ok bool) {
+	x, isR := st.(*ast.RangeStmt)
+	if !isR || src(x.X) != "sub.groupNeeds" || x.Key == nil || x.Value == nil || len(x.Body.List) != 1 {
+		return "", false
+	}
+	is, isI := x.Body.List[0].(*ast.IfStmt)
+	if !isI || len(is.Body.List) != 1 || is.Else != nil {
+		return "", false
+	}
+	c := strings.ReplaceAll(src(is.Cond), " ", "")
+	want := src(x.Key) + "!=ctpolicy.BaseName&&" + src(x.Value) + ">0"
+	as, isA := is.Body.List[0].(*ast.AssignStmt)
+	if !isA || c != want || as.Tok != token.ADD_ASSIGN || src(as.Rhs[0]) != src(x.Value) {
+		return "", false
+	}
+	return src(as.Lhs[0]), true
+}
+
 func setResultBaseBlock(rel string) func() string {
 	return func() string {
-		fd := mustFunc(rel, "safeSubmissionState.setResult")
-		var blk *ast.IfStmt
-		for _, st := range fd.Body.List {
-			if is, ok := st.(*ast.IfStmt); ok && strings.HasSuffix(src(is.Cond), "[ctpolicy.BaseName]") {
-				blk = is
+		f := parseFile(rp(rel))
+		var body []ast.Stmt
+		sumHelpers := map[string]string{}
+		for _, d := range f.Decls {
+			fd, ok := d.(*ast.FuncDecl)
+			if !ok || fd.Body == nil || !strings.HasPrefix(funcQualName(fd), "safeSubmissionState.") {
+				continue
+			}
+			// helper: acc := 0; <sum loop>; return acc
+			if l := fd.Body.List; len(l) == 3 {
+				if acc, ok := isOtherSumLoop(l[1]); ok {
+					if r, isRet := l[2].(*ast.ReturnStmt); isRet && len(r.Results) == 1 && src(r.Results[0]) == acc {
+						sumHelpers["sub."+fd.Name.Name] = "other"
+					}
+				}
+			}
+			for k, st := range fd.Body.List {
+				is, ok := st.(*ast.IfStmt)
+				if !ok || is.Init != nil {
+					continue
+				}
+				c := src(is.Cond)
+				switch {
+				case strings.HasSuffix(c, "[ctpolicy.BaseName]") && !strings.HasPrefix(c, "!"):
+					body = is.Body.List
+				case k == 0 && strings.HasPrefix(c, "!") && strings.HasSuffix(c, "[ctpolicy.BaseName]") && len(is.Body.List) == 1 && src(is.Body.List[0]) == "return":
+					body = fd.Body.List[1:]
+				}
 			}
 		}
-		if blk == nil {
-			panic(bail{rel + ": setResult has no `if <groups of the log>[ctpolicy.BaseName]` block"})
+		if body == nil {
+			panic(bail{rel + ": no code guarded by base-group membership (`…[ctpolicy.BaseName]`) in safeSubmissionState"})
 		}
-		// inside: find and drop the summation loop `for g, cnt := range sub.groupNeeds { if g != BaseName && cnt > 0 { acc += cnt } }`
 		acc := ""
 		var strip func(b []ast.Stmt) []ast.Stmt
 		strip = func(b []ast.Stmt) []ast.Stmt {
@@ -106,23 +180,12 @@ func setResultBaseBlock(rel string) func() string {
 			for _, st := range b {
 				switch x := st.(type) {
 				case *ast.RangeStmt:
-					if src(x.X) == "sub.groupNeeds" && len(x.Body.List) == 1 {
-						if is, ok := x.Body.List[0].(*ast.IfStmt); ok && len(is.Body.List) == 1 {
-							c := strings.ReplaceAll(src(is.Cond), " ", "")
-							want := src(x.Key) + "!=ctpolicy.BaseName&&" + src(x.Value) + ">0"
-							if as, ok := is.Body.List[0].(*ast.AssignStmt); ok && c == want && as.Tok == token.ADD_ASSIGN && src(as.Rhs[0]) == src(x.Value) {
-								acc = src(as.Lhs[0])
-								continue
-							}
-						}
+					a, ok := isOtherSumLoop(x)
+					if !ok {
+						panic(bail{rel + ": unexpected loop in the base-group block: " + src(x)})
 					}
-					panic(bail{rel + ": unexpected loop in setResult's base-group block: " + src(x)})
-				case *ast.AssignStmt:
-					if len(x.Lhs) == 1 && acc == "" && src(x.Rhs[0]) == "0" {
-						// candidate accumulator initialisation; dropped if the loop that follows uses it
-						out = append(out, st)
-						continue
-					}
+					acc = a
+					continue
 				case *ast.IfStmt:
 					nb := *x
 					nbb := *x.Body
@@ -133,8 +196,7 @@ func setResultBaseBlock(rel string) func() string {
 						ne.List = strip(eb.List)
 						nb.Else = &ne
 					} else if ei, ok := x.Else.(*ast.IfStmt); ok {
-						r := strip([]ast.Stmt{ei})
-						nb.Else = r[0]
+						nb.Else = strip([]ast.Stmt{ei})[0]
 					}
 					out = append(out, &nb)
 					continue
@@ -153,7 +215,6 @@ func setResultBaseBlock(rel string) func() string {
 				}
 				out = append(out, st)
 			}
-			// drop `acc := 0`
 			if acc != "" {
 				var o2 []ast.Stmt
 				for _, st := range out {
@@ -166,51 +227,95 @@ func setResultBaseBlock(rel string) func() string {
 			}
 			return out
 		}
-		body := strip(blk.Body.List)
-		if acc == "" {
-			panic(bail{rel + ": the sum over the other groups' needs was not found in setResult's base-group block"})
+		body = strip(body)
+		if acc == "" && len(sumHelpers) == 0 {
+			panic(bail{rel + ": the sum over the other groups' needs was not found (neither inline nor as a helper)"})
 		}
-		sp := Spec{Kind: "i64", Ret: "state", StateVars: []string{"stored_", "needsBase_"},
-			Vars: map[string]string{"sub.results[logURL]": "stored_", "sub.groupNeeds[ctpolicy.BaseName]": "needsBase_"},
-			Repl: map[string]string{"sub.results[logURL].sct != nil": "hasSct", "sub.results[logURL].sct == nil": "(!hasSct)", acc: "other",
-				"&submissionResult{sct: sct, err: err}": "true"}}
+		repl := map[string]string{"sub.results[logURL].sct != nil": "hasSct", "sub.results[logURL].sct == nil": "(!hasSct)",
+			"&submissionResult{sct: sct, err: err}": "true"}
+		if acc != "" {
+			repl[acc] = "other"
+		}
+		sp := Spec{Kind: "i64", Ret: "state", StateVars: []string{"stored_", "needsBase_"}, CallRepl: sumHelpers,
+			Vars: map[string]string{"sub.results[logURL]": "stored_", "sub.groupNeeds[ctpolicy.BaseName]": "needsBase_"}, Repl: repl}
 		t := &tr{sp: sp}
-		tail := "(stored_, needsBase_)"
-		code := t.block(body, tail, "  ")
-		return fmt.Sprintf("/-- generated from %s func safeSubmissionState.setResult: the block guarded by base-group membership, statement by statement\n"+
+		code := t.block(body, "(stored_, needsBase_)", "  ")
+		return fmt.Sprintf("/-- generated from %s (safeSubmissionState.setResult): the code guarded by base-group membership, statement by statement\n"+
 			"    (`other` = the sum of the other groups' positive needs; result: is the SCT stored by this block, the base group's need afterwards) -/\n"+
 			"def setResultBase (hasSct : Bool) (needsBase_ other : Int) : Bool × Int :=\n  let stored_ := false\n  %s\n", rel, code)
 	}
 }
 
-func refreshReplacesRoots(rel string) func() string {
-	return func() string {
-		fd := mustFunc(rel, "Distributor.RefreshRoots")
-		// every write into the map that becomes d.logRoots takes this round's answer
-		target := ""
-		ast.Inspect(fd.Body, func(n ast.Node) bool {
-			if a, ok := n.(*ast.AssignStmt); ok && len(a.Lhs) == 1 && src(a.Lhs[0]) == "d.logRoots" {
-				target = src(a.Rhs[0])
-			}
-			return true
-		})
-		if target == "" {
-			panic(bail{rel + ": RefreshRoots does not assign d.logRoots"})
+// reachable: fn and the same-file functions it calls, transitively
+func reachableFuncs(rel, fn string) []*ast.FuncDecl {
+	f := parseFile(rp(rel))
+	by := map[string]*ast.FuncDecl{}
+	for _, d := range f.Decls {
+		if fd, ok := d.(*ast.FuncDecl); ok && fd.Body != nil {
+			by[fd.Name.Name] = fd
 		}
-		ok := true
-		writes := 0
+	}
+	start := fn
+	if i := strings.Index(fn, "."); i >= 0 {
+		start = fn[i+1:]
+	}
+	seen := map[string]bool{}
+	var out []*ast.FuncDecl
+	var visit func(name string)
+	visit = func(name string) {
+		fd := by[name]
+		if fd == nil || seen[name] {
+			return
+		}
+		seen[name] = true
+		out = append(out, fd)
 		ast.Inspect(fd.Body, func(n ast.Node) bool {
-			if a, isA := n.(*ast.AssignStmt); isA && len(a.Lhs) == 1 {
-				if ix, isIx := a.Lhs[0].(*ast.IndexExpr); isIx && src(ix.X) == target {
-					writes++
-					if !strings.HasSuffix(src(a.Rhs[0]), ".Roots") {
-						ok = false
-					}
+			if c, ok := n.(*ast.CallExpr); ok {
+				switch x := c.Fun.(type) {
+				case *ast.Ident:
+					visit(x.Name)
+				case *ast.SelectorExpr:
+					visit(x.Sel.Name)
 				}
 			}
 			return true
 		})
-		return fmt.Sprintf("/-- generated from %s func Distributor.RefreshRoots: d.logRoots is replaced by the map `%s`, every entry of which (%d write) is this\n    round's answer of the log (`….Roots`), never what was known before -/\ndef refreshReplacesRoots : Bool := %v\n", rel, target, writes, ok && writes > 0)
+	}
+	visit(start)
+	return out
+}
+
+// RefreshRoots (with whatever helpers it is split into): d.logRoots is assigned, and the per-log entries known before are never
+// looked up (`d.logRoots[…]` does not occur); d.rootPool is assigned a fresh pool.
+func refreshReplacesRoots(rel string) func() string {
+	return func() string {
+		fds := reachableFuncs(rel, "Distributor.RefreshRoots")
+		if len(fds) == 0 {
+			panic(bail{rel + ": RefreshRoots not found"})
+		}
+		assigned, lookedUp, freshPool := false, false, false
+		for _, fd := range fds {
+			ast.Inspect(fd.Body, func(n ast.Node) bool {
+				switch x := n.(type) {
+				case *ast.AssignStmt:
+					for k, l := range x.Lhs {
+						if src(l) == "d.logRoots" {
+							assigned = true
+						}
+						if src(l) == "d.rootPool" && k < len(x.Rhs) && strings.HasSuffix(callName(x.Rhs[k]), "NewPEMCertPool") {
+							freshPool = true
+						}
+					}
+				case *ast.IndexExpr:
+					if src(x.X) == "d.logRoots" {
+						lookedUp = true
+					}
+				}
+				return true
+			})
+		}
+		return fmt.Sprintf("/-- generated from %s func Distributor.RefreshRoots and the %d same-file functions it reaches: d.logRoots is assigned (%v), the entries\n    known before are never looked up (no `d.logRoots[…]`: %v), d.rootPool starts from a fresh pool (%v) -/\ndef refreshReplacesRoots : Bool := %v\n",
+			rel, len(fds)-1, assigned, !lookedUp, freshPool, assigned && !lookedUp && freshPool)
 	}
 }
 
@@ -231,8 +336,59 @@ func restartAlwaysRebuilds(rel string) func() string {
 			}
 			return true
 		})
-		stores := strings.Contains(src(fd.Body), "p.dist = ")
+		// the builder's result variable is what is assigned to p.dist (plain or tuple assignment)
+		built, stores := "", false
+		ast.Inspect(fd.Body, func(n ast.Node) bool {
+			if a, ok := n.(*ast.AssignStmt); ok {
+				if len(a.Rhs) == 1 && callName(a.Rhs[0]) == "p.distributorBuilder" && len(a.Lhs) >= 1 {
+					built = src(a.Lhs[0])
+				}
+				for k, l := range a.Lhs {
+					if src(l) == "p.dist" && len(a.Lhs) == len(a.Rhs) && built != "" && src(a.Rhs[k]) == built {
+						stores = true
+					}
+				}
+			}
+			return true
+		})
 		return fmt.Sprintf("/-- generated from %s func Proxy.restartDistributor: the distributor builder is called on the new log list before any return,\n    and its result becomes p.dist -/\ndef restartAlwaysRebuilds : Bool := %v\n", rel, call != 0 && !early && stores)
+	}
+}
+
+// groupComplete: `needs, ok := sub.groupNeeds[name]` (comma-ok read: inputs ok_, needs_) or a direct read `sub.groupNeeds[name]`
+// (input needs_), whatever the parameter and the locals are called.
+func groupCompleteUnit(rel string) func() string {
+	return func() string {
+		fd := mustFunc(rel, "safeSubmissionState.groupComplete")
+		if fd.Type.Params == nil || len(fd.Type.Params.List) != 1 || len(fd.Type.Params.List[0].Names) != 1 {
+			panic(bail{rel + ": groupComplete does not take one parameter"})
+		}
+		read := "sub.groupNeeds[" + fd.Type.Params.List[0].Names[0].Name + "]"
+		repl := map[string]string{read: "needs_"}
+		var keep []ast.Stmt
+		for _, st := range fd.Body.List {
+			if a, ok := st.(*ast.AssignStmt); ok && len(a.Lhs) == 2 && len(a.Rhs) == 1 && src(a.Rhs[0]) == read {
+				repl[src(a.Lhs[0])] = "needs_"
+				repl[src(a.Lhs[1])] = "ok_"
+				repl["!"+src(a.Lhs[1])] = "(!ok_)"
+				continue
+			}
+			if is, ok := st.(*ast.IfStmt); ok && is.Init != nil {
+				if a, ok := is.Init.(*ast.AssignStmt); ok && len(a.Lhs) == 2 && len(a.Rhs) == 1 && src(a.Rhs[0]) == read {
+					repl[src(a.Lhs[0])] = "needs_"
+					repl[src(a.Lhs[1])] = "ok_"
+					repl["!"+src(a.Lhs[1])] = "(!ok_)"
+					n := *is
+					n.Init = nil
+					keep = append(keep, &n)
+					continue
+				}
+			}
+			keep = append(keep, st)
+		}
+		t := &tr{sp: Spec{Kind: "i64", Ignore: []string{"sub.mu."}, Repl: repl}}
+		return fmt.Sprintf("/-- generated from %s func safeSubmissionState.groupComplete (ok_: the group is a key of groupNeeds; needs_: the value read, 0 for a missing key) -/\ndef groupCompleteBody (ok_ : Bool) (needs_ : Int) : Bool :=\n  %s\n",
+			rel, t.block(keep, "true", "  "))
 	}
 }
 
@@ -246,8 +402,7 @@ func init() {
 				Vars:     map[string]string{"sub.results[logURL]": "placeholder_", "sub.cancels[logURL]": "cancelStored_"},
 				Repl: map[string]string{"sub.results[logURL] != nil": "requested", "sub.results[logURL] == nil": "(!requested)",
 					"&submissionResult{}": "true", "cancel": "true"}}, nil)},
-		{"RacesTie.groupComplete", funcKernel(r, "safeSubmissionState.groupComplete", "groupCompleteBody", "(ok_ : Bool) (needs_ : Int)", "Bool",
-			Spec{Kind: "i64", Lazy: true, Ignore: []string{"sub.mu."}, IgnoreLHS: []string{"needs", "ok"}})},
+		{"RacesTie.groupComplete", groupCompleteUnit(r)},
 		{"RacesTie.setResultBase", setResultBaseBlock(r)},
 		{"RacesTie.refreshReplacesRoots", refreshReplacesRoots("submission/distributor.go")},
 		{"RacesTie.restartAlwaysRebuilds", restartAlwaysRebuilds("submission/proxy.go")},
